@@ -104,6 +104,10 @@ def programs(tier: str):
             if susp:
                 for cancels in (0, 1):
                     yield {"block": dict(b), "outer": False, "cancels": cancels, "batch": 2}
+    # the cancellation injected between two loop iterations
+    for b in singles:
+        if b["kind"] == "ascope" and len(b.get("disp", [])) <= 1:
+            yield {"block": dict(b), "outer": False, "cancels": 1, "fine": True}
     # depth 2: every simple block inside every simple host (host keeps its own ending)
     hosts = [b for b in simple if len(b.get("disp", [])) <= 1]
     inner = [b for b in simple if len(b.get("disp", [])) <= 1]
@@ -146,7 +150,7 @@ def _blocks(b):
 
 
 def execute(program, ch: Chooser) -> Result:  # noqa: C901, PLR0912
-    r = Run(program, ch, probes=True, spawn_probe=True, cancels=program["cancels"], batch=program.get("batch", 1))
+    r = Run(program, ch, probes=True, spawn_probe=True, cancels=program["cancels"], batch=program.get("batch", 1), fine=program.get("fine", False))
     viols: list[dict] = []
     try:
         r.execute()
